@@ -13,7 +13,7 @@
   Not covered (hence `_partial`): a release / rollback *during* a rollout, deletion, disabling, pausing, step jumps, plan
   edits, scaling, API faults inside a reconcile.  Those histories are compared step by step on the walks and judged by the
   same oracles on the implementation (`C04.loop_no_void`, `C05.loop_terminal_clean`, `C03.loop_first_step_pins`,
-  `C03.loop_route_after_ready`, `C10.loop_rollback_routes_first`); for supersession see section 5.
+  `C03.loop_route_after_ready`, `C10.loop_rollback_routes_first`); for supersession see section 4.
 -/
 import RV.Props.ClosedLoopThms
 import RV.Lemmas.ClosedLoopTrafficLabels
@@ -720,6 +720,29 @@ example : (List.range 30).all (fun k => ((legalRun exF0 (.release "v2" :: (List.
   decide +kernel
 example : (legalRun exT0 (.release "v2" :: (List.replicate 40 exRound).flatten)).map (fun s => isTerminal s && terminalCleanOK s &&
       s.ro.succeeded == some true) = some true := by decide +kernel
+
+/-- test (C10, supersession): with 20 % routed on step 1 a superseding `v3` is legal (`supersedeOK`); after the workload controller
+    and one Rollout reconcile the reset invariants hold, the route is withdrawn and only then is the BatchRelease being deleted -/
+example : (legalRun exT0 (.release "v2" :: (List.replicate 14 exRound).flatten)).map (fun s => supersedeOK s "v3" && routeLive s.net) =
+    some true := by decide +kernel
+example : (run exT0 (.release "v2" :: (List.replicate 14 exRound).flatten ++ [.release "v3", .env, .ro])).map (fun s =>
+      resetInv s && resetCursor s && resetNet s && s.net.canaryIng == none &&
+      (match s.br with | some b => !b.deleting | none => false)) = some true := by decide +kernel
+example : (run exT0 (.release "v2" :: (List.replicate 14 exRound).flatten ++ [.release "v3", .env, .ro, .tick, .ro])).map (fun s =>
+      resetInv s && resetCursor s && resetNet s && s.net.canaryIng == none &&
+      (match s.br with | some b => b.deleting | none => false)) = some true := by decide +kernel
+
+/-- test (C10, rollback): the user event `rollback` of the extended loop (`RV.ClosedLoop.stepX`) with 20 % routed: the next Rollout
+    reconcile sees `IsInRollback` and only sets reason Cancelling (hypotheses of `loop_rollback_noticed_frame`); the following
+    reconciles withdraw the route before the BatchRelease is resumed -/
+example : ((run exT0 (.release "v2" :: (List.replicate 14 exRound).flatten)).bind (fun s => stepX s .rollback)).map (fun s =>
+      (match s.wl with | some w => (roWl w).inRollback && (roWl w).consistent | none => false) && routeLive s.net &&
+      ((step s .ro).map (fun t => t.ro.reason == .cancelling && t.net == s.net && t.br == s.br)).getD false) = some true := by
+  decide +kernel
+def rbState : Option CS := (run exT0 (.release "v2" :: (List.replicate 14 exRound).flatten)).bind (fun s => stepX s .rollback)
+example : (rbState.bind (fun s => run s [.ro, .ro, .br, .tick, .ro])).map
+      (fun t => (t.ro.reason, t.net.canaryIng, t.br.map (fun b => b.partition.isSome))) =
+    some (.cancelling, none, some true) := by decide +kernel
 
 /-- test: the ghost along the release of `exT0`: when 50 % is on the gateway, steps 1 and 2 have been recorded as observed ready -/
 def ghostRun (s0 : CS) (ls : List Label) : Option (TGhost × CS) :=
